@@ -244,6 +244,7 @@ package cmd
 
 //@ func walkHistory
 //@   returns err
+//@   ensures [ok-type] {C14} true
 //@   modifies $rdpos, $hashdata, $screst, $sctok, $out, maps
 //@   requires len(hash) >= 1
 //@   loop 0:
